@@ -38,6 +38,7 @@ class Ctx:
         self.nq = 0
         self.solver_s = 0.0
         self.incomplete = False
+        self.strategy = 0  # concretisation preference of commit_real: 0 = any model value, 1 = tiny magnitude, 2 = huge magnitude, 3 = near an integer
         self.n_realise = 0
         self.counter = 0
         self.inputs = {}  # name -> z3 const, declared symbolic inputs (for counterexamples)
@@ -195,12 +196,34 @@ class Ctx:
         e = z3.simplify(e)
         if z3.is_rational_value(e):
             return fractions.Fraction(e.numerator_as_long(), e.denominator_as_long())
-        if self.model is None:
-            r = self._check()
-            if r != z3.sat:
-                raise Abort("infeasible" if r == z3.unsat else "unknown", "commit_real")
-            self.model = self._model()
-        val = self.model.eval(e, model_completion=True)
+        val = None
+        if self.strategy:
+            # boundary-seeking concretisation (a concolic heuristic, never a for-all claim): code that converts a symbolic real to a machine float
+            # usually does so to apply a tolerance / magnitude test the solver can no longer see, so the re-runs prefer values at the extremes
+            absE = z3.If(e >= 0, e, -e)
+            prefs = {1: [z3.And(absE > 0, absE <= z3.RealVal("1/1000000000")), z3.And(absE > 0, absE <= z3.RealVal("1/1000000")), e == 0],
+                     2: [absE >= z3.RealVal(10 ** 9), absE >= z3.RealVal(10 ** 6)],
+                     3: [z3.And(absE > z3.RealVal("999999/1000000"), absE < 1), z3.And(absE > 1, absE < z3.RealVal("1000001/1000000"))]}[self.strategy]
+            for pref in prefs:
+                self.solver.push()
+                self.solver.add(pref)
+                r = self._check()
+                if r == z3.sat:
+                    v = self._model().eval(e, model_completion=True)
+                    self.solver.pop()
+                    if z3.is_rational_value(v):
+                        val = v
+                        self.model = None
+                        break
+                else:
+                    self.solver.pop()
+        if val is None:
+            if self.model is None:
+                r = self._check()
+                if r != z3.sat:
+                    raise Abort("infeasible" if r == z3.unsat else "unknown", "commit_real")
+                self.model = self._model()
+            val = self.model.eval(e, model_completion=True)
         if not z3.is_rational_value(val):
             raise Abort("unknown", f"irrational realisation {val}")
         self.incomplete = True
@@ -765,15 +788,27 @@ def explore(fn, assumptions=(), max_paths=100000, deadline=None, on_path=None):
     """Run fn() on every feasible decision path.  on_path(PathResult) is called after each path
     while the path's context (solver with the path condition) is still alive.
     Returns dict(paths=, unexplored=, aborted={kind: n})."""
-    work = [[]]
     stats = {"paths": 0, "unexplored": 0, "aborted": {}, "incomplete": 0, "queries": 0, "solver_s": 0.0,
              "realisations": 0, "exceptions": 0}
+    # strategy 0 = ordinary exploration.  If (and only if) the code under test realised a symbolic real on some path (float(x), astype(float): the
+    # path is then *incomplete*), the exploration is repeated with boundary-seeking concretisation preferences 1..3 (see Ctx.commit_real).
+    for strategy in (0, 1, 2, 3):
+        if strategy and not stats["incomplete"]:
+            break
+        _explore_once(fn, assumptions, max_paths, deadline, on_path, stats, strategy)
+    return stats
+
+
+def _explore_once(fn, assumptions, max_paths, deadline, on_path, stats, strategy):
+    work = [[]]
+    budget = stats["paths"] + max_paths
     while work:
-        if stats["paths"] >= max_paths or (deadline is not None and time.time() > deadline):
+        if stats["paths"] >= budget or (deadline is not None and time.time() > deadline):
             stats["unexplored"] += len(work)
             break
         script = work.pop()
         ctx = Ctx(script, assumptions)
+        ctx.strategy = strategy
         Ctx.cur = ctx
         status, out, err = "ok", None, None
         try:
